@@ -225,18 +225,20 @@ EVOLUTIONS = ["edited", "reversioned", "removed", "plain", "reclustered", "uncha
 
 @obligation(
     "C12.evolution",
-    covers=("stale-reference-external", "default-cluster", "named-cluster", "entry-read-before-the-change"),
+    covers=("stale-reference-external", "default-cluster", "named-cluster", "entry-read-before-the-change", "store-listed-before-the-entry-is-read"),
     split={"store": [0, 1]},
     bounds="caller p (version pinned) -> callee q; q then edited / given another explicit version / removed / replaced by a plain "
-           "function / moved to another cluster / unchanged; the stored entry read once before the change or not; default and named "
+           "function / moved to another cluster / unchanged; the stored entry read once before the change or not; after the change the "
+           "store's functions are listed (and the old name resolved on its own) before the caller's entry is read, or not; default and named "
            "cluster; memory and fs stores",
-    variables="choice: evolution, cluster bit, callee auto/explicit version, read-before bit, store",
+    variables="choice: evolution, cluster bit, callee auto/explicit version, read-before bit, list-first bit, store",
     budget_s={"quick": 120, "thorough": 300},
-    choice_vars=4,
+    choice_vars=5,
 )
-def evolution(ev: int, named: bool, q_explicit: bool, read_before: bool, store: int):
+def evolution(ev: int, named: bool, q_explicit: bool, read_before: bool, store: int, list_first: bool = False):
     evo = EVOLUTIONS[pick(ev, len(EVOLUTIONS))]
     rb = True if read_before else False
+    lf = True if list_first else False
     cluster = "cl" if named else None
     kind = STORES[store]
     cover("named-cluster" if named else "default-cluster")
@@ -288,6 +290,12 @@ def evolution(ev: int, named: bool, q_explicit: bool, read_before: bool, store: 
             elif evo in ("removed", "plain"):
                 stale = True
             n = len(prog.trace)
+            if lf:
+                # the store is LISTED (names resolved without any recorded parameter names) before the caller's entry is read
+                cover("store-listed-before-the-entry-is-read")
+                list_memoized_functions(cluster)
+                sb.storage(cluster).list_functions() if cluster else sb.storage().list_functions()
+                FunctionReference.from_qualified_name(old_q)
             r2 = prog.p(3)
             check("pinned-caller-is-served", r2 == 7 and len(prog.trace) == n, (r2, prog.trace[n:]))
             mem = prog.p.memento(3)
@@ -300,6 +308,12 @@ def evolution(ev: int, named: bool, q_explicit: bool, read_before: bool, store: 
             mem.trace()
             inv = mem.invocation_metadata.invocations
             check("one-invocation-recorded", len(inv) == 1, [i.fn_reference.qualified_name for i in inv])
+            got_parts = FunctionReference.parse_qualified_name(inv[0].fn_reference.qualified_name)
+            old_parts = FunctionReference.parse_qualified_name(old_q)
+            check("recorded-invocation-name-is-a-valid-qualified-name-of-the-same-function-and-version",
+                  all(got_parts[k_] == old_parts[k_] for k_ in ("module", "function", "version")), (inv[0].fn_reference.qualified_name, old_q))
+            check("recorded-invocation-arguments-preserved", tuple(inv[0].args) + tuple(inv[0].kwargs.values()) == (3,) and
+                  inv[0].effective_kwargs == {"x": 3}, (inv[0].args, inv[0].kwargs))
             check("invocation-name-preserved", inv[0].fn_reference.qualified_name == old_q,
                   (inv[0].fn_reference.qualified_name, old_q))
             if stale:
